@@ -156,11 +156,32 @@ CaseResult run_case(Tape &t, long)
           break;
         }
         if (variant == 2) {
-          std::string missing = fw::case_dir() + "/no-such-program";
-          const char *argv[] = { missing.c_str(), nullptr };
+          // a program that does not exist, named in every shape a name can have
+          // (absolute, bare, relative with a slash, empty), with and without a
+          // working directory; the strings live in exactly sized heap blocks so
+          // that reading past their ends is seen by the sanitizer
+          std::string missing;
+          switch (t.pick(5)) {
+            case 0: missing = fw::case_dir() + "/no-such-program"; break;
+            case 1: missing = "no-such-program-c14"; break;
+            case 2: missing = "./no-such-program"; break;
+            case 3: missing = "no-such-dir/prog"; break;
+            default: missing = ""; break;
+          }
+          bool with_wd = t.coin();
+          std::string wd = fw::case_dir();
+          char *a0 = (char *) malloc(missing.size() + 1);
+          memcpy(a0, missing.c_str(), missing.size() + 1);
+          char *wdc = (char *) malloc(wd.size() + 1);
+          memcpy(wdc, wd.c_str(), wd.size() + 1);
+          const char *argv[] = { a0, nullptr };
+          if (with_wd) opt.working_directory = wdc;
+          desc = "start(missing-program \"" + missing + "\"" + (with_wd ? ", working directory" : "") + ")";
           w.in_start = true;
           r = reproc_start(x.p, argv, opt);
           w.in_start = false;
+          free(a0);
+          free(wdc);
           allowed = { -ENOENT };
           break;
         }
